@@ -141,6 +141,10 @@ def walk(connection, sthr=None, jthr=None):
     hit('stretches', len(strs))
     if len(strs) >= 3:
         hit('datasets-with-3+-stretches')
+    if len(strs) >= 10:
+        hit('datasets-with-10+-stretches')
+    if strs and strs[0] and strs[0][0][0] == 0:
+        hit('datasets-starting-at-epoch-zero')
     for sid, L in enumerate(strs):
         ep = [x[0] for x in L]
         z = [x[1] for x in L]
